@@ -107,3 +107,73 @@ Example C16_example :
   /\ is_expired (mk_fdesc (mk_odesc 1 0 1 1 1 CNone TNone false None []) true
                           (mk_tinfo false 1 1 None None None None None)) = true.
 Proof. vm_compute. split; reflexivity. Qed.
+
+(* ---------------- the session level: Proofs/C01Session.v ----------------
+   The receiver as a whole (Model/Recv.v, recv_run from recv0 / ctx0) with the FDT oracle instantiated by
+   [fdt_oracle] (reference XML parser + the extraction of Model/FdtRecv.v), in the setting of
+   C01_session_clean_channel_nocode (Properties/C01.v; sender_ok / doc_fits / receiver_ok / session_meta_delivered
+   are unfolded in C01_session_statements).  The receiver joins late: it first sees the packets from ANY offset j of
+   a carousel transfer of the object (no close-object flag; every packet carries EXT_FTI, Oti::inband_fti, as
+   C02_session_fdt_late_delivers requires - they are decoded without writer), then the FDT packet carrying the
+   instance the sender model publishes for the object, then one whole further transfer (carousel or last, with or
+   without EXT_FTI, any window).  Conclusion: as C01 - writer (toi,0) got open, writes = content, one complete;
+   the metadata flute's receiver computes from the parsed document is what the sender was given.
+   Not covered: late packets WITHOUT EXT_FTI before the instance (cached and replayed LIFO: delivered in the example
+   C02Session.cached_packets_before_fdt_computed, not proved in general), a close-object flag before the instance
+   (C02_session_close_flag_before_fdt_refuted), several objects, multi-packet FDT instances. *)
+From FluteV Require Import Model.Xml Model.FdtInst Model.FdtRecv Spec.C10Spec Proofs.FdtProofs
+  Proofs.C02Session Proofs.C01Session.
+
+Theorem C16_session_late_join_nocode :
+  forall rep raptor_src cfg complete now m content E rcfg nowr id sct,
+  sender_ok cfg now m content -> doc_fits cfg complete now m -> receiver_ok E rcfg nowr sct cfg now m content ->
+  forall (window1 : nat) (debug1 : bool) (j window : nat) (closable debug fti : bool),
+  (1 <= window1)%nat -> (1 <= window)%nat ->
+  let '(_, r, cx) := recv_run E fdt_oracle rcfg recv0
+                       (map (fun p => RvPush p nowr)
+                            (skipn j (obj_wire rep raptor_src cfg m window1 false debug1 content true)
+                             ++ sess_fdt_pkt cfg complete now m id sct
+                                :: obj_wire rep raptor_src cfg m window closable debug content fti)) ctx0 in
+  session_meta_delivered cfg complete now m content rcfg r cx.
+Proof. exact session_late_join. Qed.
+Print Assumptions C16_session_late_join_nocode.
+
+(* more generally: ANY genuine packets of the object with EXT_FTI, no EXT_CENC and no close-object flag (any order,
+   any duplication, what is left of any number of earlier cycles) before the FDT packet *)
+Theorem C16_session_late_join_general_nocode :
+  forall rep raptor_src cfg complete now m content E rcfg nowr id sct,
+  sender_ok cfg now m content -> doc_fits cfg complete now m -> receiver_ok E rcfg nowr sct cfg now m content ->
+  forall (window : nat) (closable debug fti : bool) (pre : list apkt), (1 <= window)%nat ->
+  Forall (fun p => a_toi p = m_toi m) pre ->
+  Forall (fun p => genuine_pkt (obj_roti cfg m) content p = true) pre ->
+  Forall (fun p => a_oti p = Some (obj_roti cfg m, lenN_ content) /\ a_cenc p = None /\ a_close_obj p = false) pre ->
+  let '(_, r, cx) := recv_run E fdt_oracle rcfg recv0
+                       (map (fun p => RvPush p nowr)
+                            (pre ++ sess_fdt_pkt cfg complete now m id sct
+                                    :: obj_wire rep raptor_src cfg m window closable debug content fti)) ctx0 in
+  session_meta_delivered cfg complete now m content rcfg r cx.
+Proof. exact session_late_join_general. Qed.
+Print Assumptions C16_session_late_join_general_nocode.
+
+(* non-vacuity: the session of C01_session_example as a carousel (cycle = (0,0) (1,0) (0,1), EXT_FTI on the packets
+   caught before the instance): for every join offset the packets are accepted, TOI 7 ends in rv_completed and the
+   log is the delivery - by computation (real XML bytes through the oracle) and by the theorem *)
+Example C16_session_example :
+  map pid_of (exs_wire false) = [(0, 0); (1, 0); (0, 1)]
+  /\ forallb (fun j => match exs_run (skipn j (map (add_fti ex_oti 5) (exs_wire false)) ++ exs_pf :: exs_wire false) with
+                       | (_, [], [7], [], l) => list_eqb (fun a b => match a, b with
+                                                                    | EvWrite _ x _, EvWrite _ y _ => eqb_bytes x y
+                                                                    | EvBuilder _ _, EvBuilder _ _ | EvOpen _ _, EvOpen _ _
+                                                                    | EvComplete _, EvComplete _ => true
+                                                                    | _, _ => false end) l exs_log
+                       | _ => false end) [0; 1; 2; 3; 4]%nat = true.
+Proof. vm_compute. split; reflexivity. Qed.
+
+Example C16_session_example_by_theorem : forall j closable fti,
+  let '(_, r, cx) := recv_run exs_env fdt_oracle exs_rcfg recv0
+                       (map (fun p => RvPush p exs_nowr)
+                            (skipn j (obj_wire no_rep no_rsrc exs_cfg exs_m 2 false true ex_content true)
+                             ++ sess_fdt_pkt exs_cfg false exs_now exs_m 1 exs_sct
+                                :: obj_wire no_rep no_rsrc exs_cfg exs_m 2 closable true ex_content fti)) ctx0 in
+  session_meta_delivered exs_cfg false exs_now exs_m ex_content exs_rcfg r cx.
+Proof. exact exs_late_by_theorem. Qed.
